@@ -461,6 +461,14 @@ func init() {
 		"runtime.KeepAlive":          noopIntrinsic,
 		"runtime.GC":                 noopIntrinsic,
 		"runtime/debug.FreeOSMemory": noopIntrinsic,
+		rtPkg + "MapExtraSize": func(e *Engine, s *State, f *Frame, fn *ssa.Function, args []Value, retIdx int, advance bool) (Value, bool) {
+			e.usedModels = true
+			iv := args[0].(*IfaceV)
+			p := iv.V.(*Pointer)
+			mo := s.obj(p.Obj).Val.(*MapObj)
+			s.wobj(p.Obj).Val = &MapObj{Entries: mo.Entries, Extra: args[1].(*Term)}
+			return nil, true
+		},
 		rtPkg + "Ghost": func(e *Engine, s *State, f *Frame, fn *ssa.Function, args []Value, retIdx int, advance bool) (Value, bool) {
 			e.usedModels = true // ghost queries have no native counterpart
 			return e.c.BV(uint64(s.ghost[e.tagOf(args[0])]), 64), true
@@ -813,7 +821,7 @@ func xsyncLoadOrCompute(e *Engine, s *State, f *Frame, fn *ssa.Function, args []
 		v := f.scratch
 		f.contPhase, f.scratch = 0, nil
 		mo := s.obj(p.Obj).Val.(*MapObj)
-		s.wobj(p.Obj).Val = &MapObj{Entries: append(append([]MapEntry(nil), mo.Entries...), MapEntry{args[1], v})}
+		s.wobj(p.Obj).Val = &MapObj{Entries: append(append([]MapEntry(nil), mo.Entries...), MapEntry{args[1], v}), Extra: mo.Extra}
 		return TupleV{v, e.c.False}, true
 	}
 	if v, ok := xsyncLookup(e, s, p, args[1]); ok {
@@ -837,7 +845,7 @@ func xsyncDelete(e *Engine, s *State, f *Frame, fn *ssa.Function, args []Value, 
 	for i, en := range mo.Entries {
 		if e.cond(s, e.valueEq(s, en.K, args[1])) {
 			ne := append(append([]MapEntry(nil), mo.Entries[:i]...), mo.Entries[i+1:]...)
-			s.wobj(p.Obj).Val = &MapObj{Entries: ne}
+			s.wobj(p.Obj).Val = &MapObj{Entries: ne, Extra: mo.Extra}
 			break
 		}
 	}
@@ -880,6 +888,9 @@ func xsyncRange(e *Engine, s *State, f *Frame, fn *ssa.Function, args []Value, r
 
 func xsyncSize(e *Engine, s *State, f *Frame, fn *ssa.Function, args []Value, retIdx int, advance bool) (Value, bool) {
 	mo := s.obj(args[0].(*Pointer).Obj).Val.(*MapObj)
+	if mo.Extra != nil {
+		return e.c.Add(e.c.BV(uint64(len(mo.Entries)), 64), mo.Extra), true
+	}
 	return e.c.BV(uint64(len(mo.Entries)), 64), true
 }
 
